@@ -26,7 +26,7 @@ PROPS = {
         'technique': 'offline exact-arithmetic checker (Python ints/Fractions) over a recorded event log of real renders; complete boundary grid + random pairs near boundaries',
         'claim': 'Every record of the complete boundary grid (185 values in every representation able to hold them, squared, x 13 operators and negation) '
                  'and of random pairs within +-3 of a boundary is decided against exact arithmetic; this is the right level because the property is a pure '
-                 'function of two numbers whose interesting points are the width/representation boundaries, which the grid enumerates completely.',
+                 'function of two numbers whose interesting points are the width/representation boundaries, which the grid enumerates completely. A power grid (bases -12..12 and +-2^k with neighbours for 11 values of k, against every exponent 0..130, in rotating representations) decides where `**` must still give the exact result and where it must fail, base by base.',
         'note': 'trusts Python integer/Fraction arithmetic and IEEE doubles; float ** within 4 ulp of libm; operands reach the engine as context values or literals only',
         'oracle': 'o_numbers',
         'rule': "every render of `{{ a OP b }}` / `{{ -a }}` (a, b context values in a stated representation, or literals) is one evaluation, "
@@ -45,7 +45,7 @@ PROPS = {
         'claim': 'For lengths 0-8 and 12, arrays and multi-byte strings, every index and every (start, stop, step) triple over a parameter set '
                  '{absent, 0, +-1..+-(len+2), +-100, i64/i128 extremes, u64/u128 values} is rendered through the matching syntactic form and compared with '
                  "Python's answer; character-wise string operations (length, reverse, truncate, iteration, index, slices) on random hostile Unicode strings are compared with "
-                 'Python code-point semantics. The grid is complete, so a break of clamping, sign handling or byte/char confusion shows within one run.',
+                 'Python code-point semantics. The grid is complete, so a break of clamping, sign handling or byte/char confusion shows within one run. One random container in eight and one hostile string in six have a length around a power of two (15-17, 23-25, 31-33, 63-65, 127-129, 255-257, 300).',
         'note': "trusts CPython list/str slicing; undefined is observed through `| default`; a slice parameter above i128::MAX may be an error (engine integers are i128) but never a wrong selection; the undocumented spellings `x.0` and `x[a:b:]` are not generated",
         'oracle': 'o_slices',
         'rule': "one evaluation = one render of an index/slice/string-operation template; a cell = (record type, container kind, length, syntactic form, spelling, "
@@ -72,7 +72,7 @@ PROPS = {
         'claim': 'The base pool (143 values: every kind, every number in every encoding able to hold it, safe/normal strings, nested and near-equal arrays and maps) is checked '
                  'exhaustively for reflexivity, symmetry, transitivity of ==, antisymmetry/transitivity/totality of cmp, Equal=>==, ==>Equal, congruence, partial_cmp=>cmp, '
                  'agreement of == with structural/mathematical equality and of the scalar order with exact arithmetic; random pools repeat this with generated values. '
-                 'Key lookups through 9 access paths are compared with a model keyed by mathematical equality, on maps of 0-16 entries straddling the scan/hash cutoff. The same text built through 11 construction paths (context string, owned key handed back by a loop / keys / pairs, safe mark, concatenation, slice, case round trip, capture, map entry) at every byte length 0-48 (around the inline/heap boundary of the string type) must be equal, ordered as equal, found in arrays and maps and one class for unique, pairwise.',
+                 'Key lookups through 9 access paths are compared with a model keyed by mathematical equality, on maps of 0-16 entries straddling the scan/hash cutoff. The same text built through 11 construction paths (context string, owned key handed back by a loop / keys / pairs, safe mark, concatenation, slice, case round trip, capture, map entry) at every byte length 0-48 (around the inline/heap boundary of the string type) must be equal, ordered as equal, found in arrays and maps and one class for unique, pairwise. One lookup map in sixteen has 17-257 entries (around powers of two). Array membership (`a in xs`, `a not in xs`) must agree with `some element equals a` for needles taken from the array in another integer encoding or from the pool, on arrays of 0-96 elements.',
         'note': 'the model equality/order is separate code written from the documentation; arrays have no documented order, only the laws are asserted for them; float probes into maps are not generated (undocumented)',
         'rule': "one evaluation = one pair comparison, one triple law instance or one rendered lookup/comparison; a cell = (pair of value kinds) for the laws, "
                 "(access path, probe key kind, scan/hash size class, present/absent) for lookups, (kinds, ok/err) for template comparisons",
@@ -97,7 +97,7 @@ PROPS = {
         'technique': 'matrix enumeration with a panic recorder (55 built-ins x 57 receivers x declared-argument states absent/right/wrong kind) + per-built-in contract oracles on random hostile strings and numbers',
         'claim': 'The full matrix is enumerated in both tiers: every built-in with every receiver of the pool, each declared argument absent, of the right kind at boundary values and of each wrong kind, '
                  'argument pairs for multi-argument built-ins, and undeclared argument names; no panic, valid UTF-8, missing required and mistyped arguments must be errors. '
-                 'Contract laws (case filters, trim*, truncate, replace, indent, newlines_to_br, escape_*, int/float/abs/str/round, default, range, type-test partition, odd/even, pluralize) run on random inputs. Order-independence pass: every built-in, with no argument and with each optional or sole required argument, over 36 neighbouring values (sub- and supersets of maps and arrays, numbers equal up to representation, strings sharing prefixes or differing in a trailing NUL) forwards, backwards, again and twice in a row: each result must equal the first one obtained for that value. `reverse` of bytes gives the reversed bytes (equality, involution, length, printed text); `n is divisible_by(0)` is false or refused for every n but zero.',
+                 'Contract laws (case filters, trim*, truncate, replace, indent, newlines_to_br, escape_*, int/float/abs/str/round, default, range, type-test partition, odd/even, pluralize) run on random inputs. Order-independence pass: every built-in, with no argument and with each optional or sole required argument, over 36 neighbouring values (sub- and supersets of maps and arrays, numbers equal up to representation, strings sharing prefixes or differing in a trailing NUL) forwards, backwards, again and twice in a row: each result must equal the first one obtained for that value. `reverse` of bytes gives the reversed bytes (equality, involution, length, printed text); `n is divisible_by(0)` is false or refused for every n but zero. `indent` is also rendered with width, first and blank taken from the context (widths 0-9, powers of two and neighbours, every multiple of 64 up to 960, anything up to 1000) against the same line-wise law.',
         'note': 'case-mapping laws are asserted on scripts with 1:1 case maps only; documented ambiguities are accepted both ways (entity spelling of the apostrophe, pluralize of -1, indent of whitespace-only lines / blank first line, range with start > end); round tolerates one unit of the requested place',
         'rule': "one evaluation = one render; a cell = (built-in, receiver kind, argument name:state:argument kind, ok/err) for the matrix and (law family, input class) for the laws",
         'exhaustive': 'the built-in x receiver x argument-state matrix is complete; law inputs are sampled',
@@ -209,7 +209,7 @@ PROPS = {
         'technique': 'independent graph oracle (exact-then-prefix name resolution, plain DFS for cycles) compared with the engine verdict and error kind on generated extends/include digraphs; every accepted set rendered in a supervised child process with a CPU watchdog',
         'claim': 'Random digraphs on 1-10 templates (<= 1 extends edge per node; include edges at top level, in dead branches, captures, component bodies, loops, blocks, filter sections and else branches), self-loops, cycles of length 2-10 entered from a tail, '
                  'dangling targets, targets reachable only through a fallback prefix, exact-vs-prefix shadowing, two prefixes of different priority with twin templates under both, acyclic include and extends chains of depth 1-32 (deterministic sweep), and the mixed family (include edges inside blocks of templates in an extends relation, with super()). '
-                 'Each graph is registered as one batch (either order) or in two steps (the set with the edges of one template cut, then that template again with its real source). The engine must accept exactly the graphs the oracle finds sound and reject the others with an error kind in the oracle\'s admissible set; every template of every accepted set is then rendered: text or an error, never a dead process or a CPU-budget overrun, and text without fail when the graph has no extends edge (nothing can recurse then). Registration also happens with one template held back (preferably one under the first prefix) and added alone afterwards, so that what a short name resolves to changes without the templates using it being registered again.',
+                 'Each graph is registered as one batch (either order) or in two steps (the set with the edges of one template cut, then that template again with its real source). The engine must accept exactly the graphs the oracle finds sound and reject the others with an error kind in the oracle\'s admissible set; every template of every accepted set is then rendered: text or an error, never a dead process or a CPU-budget overrun, and text without fail when the graph has no extends edge (nothing can recurse then). Registration also happens with one template held back (preferably one under the first prefix) and added alone afterwards, so that what a short name resolves to changes without the templates using it being registered again. One generated cycle in four is long (31-300 members, around 32/64/128/256), entered directly or from a tail.',
         'note': 'when several faults coexist any corresponding kind is accepted; termination is decided as bounded progress (20 s CPU per case, confirmed alone with 10x); stack verdicts for an 8 MiB stack and the optimised build',
         'rule': "one evaluation = one registration or one render; a cell = (shape class incl. cycle length/tail or chain depth, engine verdict, set of include placements, prefix in use)",
         'must_observe': ['graphs_accepted', 'graphs_rejected', 'renders_supervised', 'graphs_completed_in_a_second_step'],
